@@ -204,6 +204,30 @@ def frontend_job(job):
         t_ast.simplify_logic = orig
 
 
+MODELLED = set(STEP_NAMES["default"])
+
+
+def model_check_rules(sc, quick):
+    """TLC on the transcribed rules themselves: every ExprGen tree to a token bound and every PatGen family,
+    every step, every outcome the rule's relation allows (all argument orders)"""
+    out = {"universes": {}, "broken": [], "fired": {}, "nondeterministic_trees": 0}
+    runs = [("MC_BoolOpt", f"ExprGen<= {n}{'+const' if wc == 'TRUE' else ''}",
+             ("SPECIFICATION Spec\nCONSTANTS MaxTok = %d\n Syms = {\"a\",\"b\",\"c\"}\n WithConst = %s\nINVARIANT RulesOK\n"
+              "CONSTRAINT Bound\nCHECK_DEADLOCK FALSE\n") % (n, wc)) for n, wc in ((5 if quick else 6, "FALSE"), (4 if quick else 5, "TRUE"))]
+    runs += [("MC_BoolOptPat", "PatGen-" + fam, f"SPECIFICATION Spec\nCONSTANT Family = \"{fam}\"\nINVARIANT RulesOK\nCHECK_DEADLOCK FALSE\n")
+             for fam in PAT_FAMILIES]
+    for mod, name, cfg in runs:
+        r = tlc.run_model(mod, cfg, sc, workers=16, timeout=3000, tags=("B", "N", "F"), heap="8g")
+        if not r["ok"]:
+            raise MachineryError(f"{mod} {name}: model checking did not complete")
+        out["universes"][name] = r["stats"].get("distinct", 0)
+        out["broken"] += [{"clause": v[1], "step": v[2], "tree": v[3]} for v in r["prints"]["B"]]
+        out["nondeterministic_trees"] += len(r["prints"]["N"])
+        for v in r["prints"]["F"]:
+            out["fired"][v[1]] = out["fired"].get(v[1], 0) + 1
+    return out
+
+
 def triggers_of(r):
     """call-site patterns of a recorded application (used to identify known findings)"""
     tr = [r["step"]]
@@ -299,8 +323,21 @@ def run(pid):
             cases.append(c)
             meta[c["id"]] = r
         verdicts, stats = tlc.run_cases("Trace_C04", cases, sc, timeout=1500)
+        # refinement binding: is each recorded application a behaviour of spec/BoolOpt.tla?  (drift is reported, never judged)
+        rcases = [dict(c, step=meta[c["id"]]["step"]) for c in cases
+                  if meta[c["id"]]["step"] in MODELLED and sum(ser.expr_size(t) for _, t in c["pre"]) <= 400]
+        rverd, rstats = tlc.run_cases("Trace_BoolOpt", rcases, sc, timeout=1500, heap="4g")
+        mc = model_check_rules(sc, quick)
     vlog('tlc done', len(cases))
     vst, changed, per_step = {}, 0, {}
+    rv, rstep, drift = {}, {}, []
+    for c in rcases:
+        v = rverd[c["id"]]
+        rv[v] = rv.get(v, 0) + 1
+        d = rstep.setdefault(c["step"], {})
+        d[v] = d.get(v, 0) + 1
+        if v != "conform":
+            drift.append({"step": c["step"], "verdict": v, "pre": c["pre"], "post": c["post"]})
     for c in cases:
         v = verdicts[c["id"]]
         r = meta[c["id"]]
@@ -325,8 +362,13 @@ def run(pid):
         "generator_states": gstats, "trees": len(trees), "lists": len(lists), "frontend_lists": len(fe),
         "cnf_pairs": len(cnf_cases), "status": st, "verdicts": vst, "per_step": per_step, "unchanged_not_judged": unchanged,
         "pattern_trees": len(pats), "trees_used": len(trees_used), "patterns_used": len(pats_used),
+        "refinement": {"spec": "BoolOpt.tla via Trace_BoolOpt", "applications_replayed": len(rcases), "verdicts": rv, "per_step": rstep,
+                       "drift_samples": drift[:5]},
+        "model_checking_of_BoolOpt": mc,
     }
     vac = None
+    if mc["broken"]:
+        vlog("BoolOpt model: broken clauses", mc["broken"][:3])
     if len(cases) < 300 or any(per_step.get(s, {}).get("changed", 0) == 0 for s in STEP_NAMES["default"]):
         vac = f"cases={len(cases)} per_step={per_step}"
     return rep.finish(cov, T0.s(), assumptions=["spec/BoolSem.tla is the reference semantics of boolean trees"], vacuity=vac)
